@@ -96,6 +96,9 @@ func packageNameOf(dir string) (string, error) {
 			if err != nil {
 				continue
 			}
+			if strings.Contains(string(b), "//go:build ignore") || strings.Contains(string(b), "// +build ignore") {
+				continue // generator programs (package main) living in the package directory
+			}
 			for _, line := range strings.Split(string(b), "\n") {
 				line = strings.TrimSpace(line)
 				if strings.HasPrefix(line, "package ") {
